@@ -4,11 +4,14 @@ C11 — The on-disk journal is an exact, gap-free record of accepted writes.
 Proved here: file-name theorems (all u64 ids; imported), the segment returned
 by a write is the place its record was journalled at, and the rotation rule
 (after every write the open chunk is below both limits unless it holds only
-its head record). The byte-level journal invariant (file bytes = head ‖
-records in call order, files abut) is stated in `Proofs/Journal.lean` when
-proved; until then it is covered by the correspondence run (`dumpw`, `dir`).
+its head record). The byte-level journal invariant (file bytes ‖ bytes in flight
+in the worker ‖ pending buffer = head ‖ one record per accepted write in call
+order; files abut; exact files and on-disk size at quiescence) is
+`Props/C11Journal.lean` (invariant `J`, proved for every history of calls,
+flushes, drains and worker steps of any outcome while the worker is alive).
 -/
 import RaftLogModel.Props.C11Names
+import RaftLogModel.Props.C11Journal
 import RaftLogModel.Proofs.StoreBasic
 namespace RaftLog
 
